@@ -268,6 +268,9 @@ pub enum Act {
     Disconnect,
     /// v5.0 DISCONNECT carrying Session Expiry Interval 0 (the session ends with this connection)
     DisconnectExpiry0,
+    /// v5.0 DISCONNECT carrying Session Expiry Interval 100 (keeps a persistent session; on a session that began
+    /// with interval 0 it is a protocol error of the sender [MQTT-3.14.2-2] and cannot make it persistent)
+    DisconnectKeep,
     Auth,
     Timer(Tk),
     Closed,
@@ -294,6 +297,7 @@ pub enum Act {
     PDisconnect,
     /// the peer's v5.0 DISCONNECT carrying Session Expiry Interval 0 (client to server only)
     PDisconnectExpiry0,
+    PDisconnectKeep,
     PAuth,
     /// first `k` bytes of a PUBLISH q0 frame, then nothing (frame cut by the transport)
     PPartial(u8),
@@ -316,6 +320,7 @@ pub fn act_kind(a: &Act) -> String {
         Act::Pingreq => "Pingreq".into(),
         Act::Disconnect => "Disconnect".into(),
         Act::DisconnectExpiry0 => "Disconnect(sei=0)".into(),
+        Act::DisconnectKeep => "Disconnect(sei=100)".into(),
         Act::Auth => "Auth".into(),
         Act::Timer(k) => format!("Timer({k:?})"),
         Act::Closed => "Closed".into(),
@@ -339,6 +344,7 @@ pub fn act_kind(a: &Act) -> String {
         Act::PPingresp => "PPingresp".into(),
         Act::PDisconnect => "PDisconnect".into(),
         Act::PDisconnectExpiry0 => "PDisconnect(sei=0)".into(),
+        Act::PDisconnectKeep => "PDisconnect(sei=100)".into(),
         Act::PAuth => "PAuth".into(),
         Act::PPartial(_) => "PPartial".into(),
         Act::PRaw(_) => "PRaw".into(),
@@ -971,6 +977,7 @@ impl<P: Pid> Ep<P> {
             Act::PPingresp => AP::Pingresp { ver },
             Act::PDisconnect => AP::Disconnect { ver, code: None, props: None },
             Act::PDisconnectExpiry0 => AP::Disconnect { ver, code: Some(0), props: Some(vec![Prop { id: 0x11, val: PVal::U32(0) }]) },
+            Act::PDisconnectKeep => AP::Disconnect { ver, code: Some(0), props: Some(vec![Prop { id: 0x11, val: PVal::U32(100) }]) },
             Act::PAuth => AP::Auth { code: None, props: None },
             _ => return None,
         })
@@ -1118,6 +1125,7 @@ impl<P: Pid> World for Ep<P> {
                 v.push(Act::Disconnect);
                 if al.disconnect_expiry0 && self.v5() && m.as_client {
                     v.push(Act::DisconnectExpiry0);
+                    v.push(Act::DisconnectKeep);
                 }
             }
         }
@@ -1257,6 +1265,7 @@ impl<P: Pid> World for Ep<P> {
                 v.push(Act::PDisconnect);
                 if al.disconnect_expiry0 && self.v5() && !m.as_client {
                     v.push(Act::PDisconnectExpiry0);
+                    v.push(Act::PDisconnectKeep);
                 }
             }
             if al.peer_auth && self.v5() {
@@ -1420,6 +1429,7 @@ impl<P: Pid> World for Ep<P> {
             Act::Pingreq => calls.push(self.lib_send(&AP::Pingreq { ver })),
             Act::Disconnect => calls.push(self.lib_send(&AP::Disconnect { ver, code: None, props: None })),
             Act::DisconnectExpiry0 => calls.push(self.lib_send(&AP::Disconnect { ver, code: Some(0), props: Some(vec![Prop { id: 0x11, val: PVal::U32(0) }]) })),
+            Act::DisconnectKeep => calls.push(self.lib_send(&AP::Disconnect { ver, code: Some(0), props: Some(vec![Prop { id: 0x11, val: PVal::U32(100) }]) })),
             Act::Auth => calls.push(self.lib_send(&AP::Auth { code: None, props: None })),
             Act::Timer(k) => {
                 self.m.timer_fires += 1;
